@@ -91,6 +91,12 @@ class Alloc:
         self.k = 0
         self.scripts = []
         self.mgrs = []
+        self.msgs = []
+
+    def msg(self, raises=None):
+        self.k += 1
+        self.msgs.append([self.k, raises])
+        return self.k
 
     def T(self):
         self.n += 1
@@ -108,7 +114,7 @@ class Alloc:
         return self.k
 
     def case(self, body, **extra):
-        c = {"body": body, "scripts": self.scripts, "mgrs": self.mgrs}
+        c = {"body": body, "scripts": self.scripts, "mgrs": self.mgrs, "msgs": self.msgs}
         c.update(extra)
         return c
 
@@ -241,8 +247,8 @@ def _frames():
 
 FRAMES = _frames()
 BASE_JUMPS = ["break", "continue", "return", "raise", "fall"]
-EXTRA_JUMPS = ["reraise", "raisefrom", "raisebase", "assert"]
-QUICK_EXTRA_JUMPS = ["reraise", "raisebase"]
+EXTRA_JUMPS = ["reraise", "raisefrom", "raisebase", "assert", "assertmsg-pass", "assertmsg-fail", "assertmsg-fail-raises"]
+QUICK_EXTRA_JUMPS = ["reraise", "raisebase", "assertmsg-pass"]
 
 
 def _jump(a, j):
@@ -263,7 +269,13 @@ def _jump(a, j):
     if j == "raisebase":
         return [["raise", "BX", None]]
     if j == "assert":
-        return [["assert", a.site([0])]]
+        return [["assert", a.site([0]), None]]
+    if j == "assertmsg-pass":       # the message expression must not be evaluated (it would raise EC)
+        return [["assert", a.site([1]), a.msg("EC")]]
+    if j == "assertmsg-fail":
+        return [["assert", a.site([0]), a.msg(None)]]
+    if j == "assertmsg-fail-raises":
+        return [["assert", a.site([0]), a.msg("EC")]]
     raise ValueError(j)
 
 
@@ -362,7 +374,10 @@ class RandGen:
         if r < 0.66:
             return [["reraise"]]
         if r < 0.76:
-            return [["assert", self.a.site(self.cond_script())]]
+            msg = None
+            if rng.random() < 0.6:
+                msg = self.a.msg(rng.choice([None, None, "EC", "EA", "BX"]))
+            return [["assert", self.a.site(self.cond_script()), msg]]
         if r < 0.88:
             return [["probe", self.a.site(), 10 * scope + rng.choice([1, 2])]]
         if r < 0.92:
@@ -519,7 +534,8 @@ def _q_stmt(s):
     if op == "with":
         return f"(SWith {_lst(_n(k) for k in s[1])} {_q_block(s[2])})"
     if op == "assert":
-        return f"(SAssert {_n(s[1])})"
+        msg = s[2] if len(s) > 2 else None
+        return f"(SAssert {_n(s[1])} {q.option(_n(msg) if msg is not None else None)})"
     if op == "func":
         return f"(SFunc {_n(s[1])} {_q_block(s[2])})"
     raise ValueError(s)
@@ -549,6 +565,8 @@ def _q_event(e):
         if len(e) > 5:      # bound to something that is not an exception: outside the model
             return f"(EvP {_n(e[1])} {_n(e[2])} (Some (mkExc {_n(UNKNOWN_CLASS)} None)))"
         return f"(EvP {_n(e[1])} {_n(e[2])} {_q_oexc(e[3], e[4])})"
+    if op == "msg":
+        return f"(EvMsg {_n(e[1])})"
     if op == "ret":
         v = e[2]
         return f"(EvRet {_n(e[1])} {q.option(_n(v) if isinstance(v, int) else (None if v is None else _n(98)))})"
@@ -586,7 +604,9 @@ class FlowStream(Stream):
             "inside first/second handler; try-finally body/finally (normal and during an exception); try-except-else-finally "
             "body/handler/else/finally; with 1 manager keep/suppress; with 2 managers keep,keep/suppress,keep/keep,suppress; "
             "function boundary) ending in each of {break, continue, return, raise, fall-through} (plus bare re-raise, raise-from, "
-            "raise of a BaseException, failing assert for d=1 and, in thorough, d=2; bare re-raise and BaseException for d=2 in quick), "
+            "raise of a BaseException, failing assert, and asserts with a message expression ms(j) that logs and may raise - passing "
+            "(message must not be evaluated), failing, failing with a raising message - for d=1 and, in thorough, d=2; bare re-raise, "
+            "BaseException and the passing assert-with-message for d=2 in quick), "
             "exhaustive for d<=2 in quick and d<=3 in thorough, only those "
             "CPython's compiler accepts; (b) random skeletons to nesting depth 6 over all constructs with random scripts for "
             "conditions/iterators, 1-3 managers with raising __enter__/suppressing or raising __exit__, handler names reused "
@@ -603,7 +623,7 @@ class FlowStream(Stream):
     coqc_timeout = 1500      # a shard needs ~5 s of CPU; the margin is for a heavily shared machine
 
     def budget(self, tier):
-        return 5700 if tier == "quick" else 82000
+        return 6200 if tier == "quick" else 84000
 
     def prelude(self, ctx, findings, witness_terms):
         ct = q.lst(f"({q.N(cid)}, {q.lst(q.N(x) for x in anc)})" for cid, anc in class_table())
@@ -637,7 +657,7 @@ class FlowStream(Stream):
         return cases
 
     def run_impl(self, ctx, cases):
-        slim = [{"body": c["body"], "scripts": c["scripts"], "mgrs": c["mgrs"]} for c in cases]
+        slim = [{"body": c["body"], "scripts": c["scripts"], "mgrs": c["mgrs"], "msgs": c.get("msgs", [])} for c in cases]
         nproc = 16 if len(slim) > 20000 else 8 if len(slim) > 400 else 2
         chunks = split_chunks(slim, nproc)
         res = run_workers_parallel(ctx, "vh.workers.c02_flow", [{"cases": c} for c in chunks])
@@ -647,12 +667,13 @@ class FlowStream(Stream):
         # one scope delimiter for the whole term (a `%N` per number doubles coqc's parsing time); CPython's
         # observation is shipped only where it differs from pyscript's
         py = "None" if obs["py"] == obs["ps"] else f"(Some {_q_obs(obs['py'])})"
-        return ("(Build_fcase %s %s %s %s %s)%%N" % (
+        msgs = _lst(f"({_n(j)}, {q.option(_q_exc(r) if r is not None else None)})" for j, r in case.get("msgs", []))
+        return ("(Build_fcase %s %s %s %s %s %s)%%N" % (
             _q_block(case["body"]), _lst(f"({_n(k)}, {_lst(_n(v) for v in sc)})" for k, sc in case["scripts"]),
-            _lst(_q_mgr(m) for m in case["mgrs"]), _q_obs(obs["ps"]), py))
+            _lst(_q_mgr(m) for m in case["mgrs"]), msgs, _q_obs(obs["ps"]), py))
 
     def key(self, case):
-        return json.dumps([case["body"], case["scripts"], case["mgrs"]], sort_keys=True)
+        return json.dumps([case["body"], case["scripts"], case["mgrs"], case.get("msgs", [])], sort_keys=True)
 
     def nontrivial(self, case, obs):
         return len(obs["py"]["log"]) > 3 and depth_of(case["body"]) >= 1
@@ -666,6 +687,7 @@ class FlowStream(Stream):
 
     def describe(self, case, obs):
         return {"label": case.get("label"), "source": render(case), "scripts": case["scripts"], "mgrs": case["mgrs"],
+                "msgs": case.get("msgs", []),
                 "constructs": sorted(constructs_of(case["body"], set())),
                 "pyscript": obs["ps"], "cpython": obs["py"]}
 
